@@ -1,0 +1,69 @@
+//go:build verif
+
+package machos
+
+import (
+	"bytes"
+	"encoding/binary"
+	"io"
+
+	"github.com/sassoftware/relic/v8/lib/binpatch"
+)
+
+// Verification hooks (build tag "verif"): add-only accessors for scanFile and PatchSignature.
+
+// VerifMarkers is what scanFile records.
+type VerifMarkers struct {
+	BigEndian      bool
+	Magic          uint32
+	SigStart       int64
+	SigLen         int64
+	LoadCsStart    int64
+	LinkEditHdrPos int64
+	LinkEditOffset uint64
+	LinkEditFilesz uint64
+	NextLc         int64
+	FirstSh        int64
+	CodeSize       int64
+	Consumed       int // bytes scanFile took from the reader
+}
+
+func export(m *machoMarkers, consumed int) *VerifMarkers {
+	return &VerifMarkers{
+		BigEndian:      m.ByteOrder == binary.ByteOrder(binary.BigEndian),
+		Magic:          m.Magic,
+		SigStart:       m.sigStart,
+		SigLen:         m.sigLen,
+		LoadCsStart:    m.loadCsStart,
+		LinkEditHdrPos: m.linkEditHdrPos,
+		LinkEditOffset: m.linkEditHdr.Offset,
+		LinkEditFilesz: m.linkEditHdr.Filesz,
+		NextLc:         m.nextLc,
+		FirstSh:        m.firstSh,
+		CodeSize:       m.codeSize,
+		Consumed:       consumed,
+	}
+}
+
+// VerifScan runs scanFile.
+func VerifScan(file []byte) (*VerifMarkers, error) {
+	var saved bytes.Buffer
+	m, err := scanFile(io.TeeReader(bytes.NewReader(file), &saved))
+	if err != nil {
+		return nil, err
+	}
+	return export(m, saved.Len()), nil
+}
+
+// VerifPatch runs scanFile and PatchSignature exactly as Sign does and returns the patched header buffer, the
+// position of the signature, the patch set (whose last blob is the zero-filled, padded signature buffer), the
+// padding and the length of the signature buffer.
+func VerifPatch(file []byte, sigSize int64) (newHeader []byte, sigStart int64, patch *binpatch.PatchSet, padding int64, sigBufLen int, err error) {
+	var saved bytes.Buffer
+	m, err := scanFile(io.TeeReader(bytes.NewReader(file), &saved))
+	if err != nil {
+		return nil, 0, nil, 0, 0, err
+	}
+	newHeader, sigBuf, sigStart, patch, padding, err := m.PatchSignature(saved.Bytes(), sigSize)
+	return newHeader, sigStart, patch, padding, len(sigBuf), err
+}
